@@ -455,6 +455,39 @@ func genThresholds(c *hmain.Ctx, g evGen) {
 	lap("twin")
 
 	// ---------------------------------------------------------------------------------------------
+	// k8s-cut (quick and thorough): the k8s multiline action with a SMALL max_event_size and cut_off_event_by_limit on; a
+	// line of partial chunks whose escaped form is escape sequences (\u0000, \\, \", \u0001\t\ufffd). The first chunk
+	// fills the buffer up to 9 bytes below the limit, the second one (0..8 bytes) sweeps the remainder, so the cut of the
+	// third chunk lands on EVERY offset inside its first and second escape sequence. A chunk that would fit again and
+	// the end of the line follow, then a second line. Every event's JSON text is shorter than max_event_size (a
+	// reachable setting). Until now this action met max_event_size 16..400 with ordinary text only: the cut inside an
+	// escape sequence (the passed event did not encode to valid JSON any more; repaired by /repo 66f8e5d) was found by
+	// the thorough tier alone (stream k8s-bad-log, settings (28 1 0)).
+	{
+		k8sPi := pluginIdx["k8s-multiline"]
+		for _, max := range []int{24, 28, 40, 64} {
+			for pad := 0; pad <= 8; pad++ {
+				for _, piece := range []string{"\x00\x00x", "\\\\\\\\\\x", "\"\"\"\"\"", "\x01\t\xff"} {
+					for _, field := range []int{0, 1} {
+						ch := chainT{[]hx.Sx{plugSx("k8s-multiline", plugins[k8sPi].cfgs[0], [3]int{max, 1, field})}, k8sPi}
+						evs := []hx.Sx{
+							evSx(`{"log":` + q(strings.Repeat("a", max-12)) + `}`),
+							evSx(`{"log":` + q(strings.Repeat("b", pad)) + `}`),
+							evSx(`{"log":` + q(piece) + `}`),
+							evSx(`{"log":"z"}`),
+							evSx(`{"log":"end\n"}`),
+							evSx(`{"log":"next\n"}`),
+						}
+						c.W.Count("k8s_cut_small_max_with_escapes")
+						one("k8s-cut", ch, evs)
+					}
+				}
+			}
+		}
+	}
+	lap("k8s-cut")
+
+	// ---------------------------------------------------------------------------------------------
 	// additional-scalar-full-pool: the directed family of finding C13-additional-scalar-full-node-pool,
 	// generated only once the finding is listed (until then the check must stay green): the event takes
 	// exactly P-1 slots of a node pool of P = 16 / 64, a decoding action decodes a string field that
